@@ -1,4 +1,5 @@
 import Proofs.HeapLemmas
+import Proofs.MapOrderLemmas
 import Proofs.ArrLemmas
 /-!
 # The filter bodies and `values.Convert(·, []any)` on the slice memory refine `Filters/Arr.lean` / `Convert.lean`
@@ -548,6 +549,10 @@ theorem convert_anys_shape {v w : GoVal} (h : convert v .anys = .ok w) : ∃ ys,
        · split at h
          · cases h
          · exact ⟨_, (Res.ok.inj h).symm⟩)
+    | (next kvs _ =>
+        rcases MapOrder.sortedMapEntries_cases (ε := Cause) kvs with ⟨_, h1⟩ | ⟨_, w, h1⟩ <;> rw [h1] at h
+        · exact ⟨_, (Res.ok.inj h).symm⟩
+        · cases h)
 
 /-- the pure conversion of a receiver (or of `concat`'s argument): nil is the empty array -/
 def convAnysP (g : GoVal) : Res Cause (List GoVal) :=
